@@ -426,6 +426,8 @@ class Interp:
         self.external_call = None  # fn(interp, callee, args, kwpairs) for symbolic callables
         self.stats = {'calls': 0}
         self.units_entered = set()
+        self.summaries_used = set()     # callees replaced by their contract (mode 'summarise') on some path
+        self.externals_used = set()     # calls that leave sigtools, modelled
         self.depth = 0
 
     # ------------------------------------------------------------------ modules
@@ -558,6 +560,7 @@ class Interp:
         if hook is not None:
             r = hook(self, f, args, kwpairs)
             if r is not NotImplemented:
+                self.summaries_used.add(f.qualname)
                 return r
         self.units_entered.add(f.qualname)
         frame = self.bind(f, args, kwpairs)
